@@ -335,6 +335,10 @@ def run(rep):
                     ck.check('pow', ('le', None, (f_, B.Real(1))),
                              {base[1][0]: v})
                     ck.check('pow', f_, {base[1][0]: v})
+    # derived bit-vector constructors (bvsmod, nand, signed comparisons,
+    # n-ary forms, ...) evaluated by a model for every operand value
+    if not rep.only or rep.only == 'derived':
+        derived_bv_cases(ck, rep, rng)
     if not rep.only or rep.only == 'after_failure':
         after_failure_cases(ck, rep, rng, 40 if rep.tier == 'quick' else 3000)
     # --- random QF, UF-free formulas of every result type
@@ -374,6 +378,56 @@ def run(rep):
                       {'bp': B.to_json(fb) if fb else None, 'kind': name})
     del M.PENDING[:]
     rep.count('contract_evals', M.COUNTS.get('get_value_contract', 0))
+
+
+def derived_bv_cases(ck, rep, rng):
+    """The constructor table of C06, but observed through model
+    evaluation: EagerModel.get_value of the built formula for every operand
+    value (widths 1-3) against the constructor's reference function."""
+    import itertools
+    from pysmt.solvers.eager import EagerModel
+    from . import c06
+    env = common.fresh_env()
+    mgr = env.formula_manager
+    idx = 0
+    for w in (1, 2, 3):
+        for (name, sorts, build, py) in c06.bv_cases(mgr, w):
+            idx += 1
+            if idx % rep.nshards != rep.shard or len(sorts) > 2:
+                continue
+            if any(t[0] != 'BV' or t[1] > 3 for t in sorts):
+                continue
+            args = [mgr.Symbol('c02d%d_%d' % (i, t[1]),
+                               B.to_pytype(t, env))
+                    for i, t in enumerate(sorts)]
+            try:
+                f = build(*args)
+            except Exception:
+                continue
+            for vals in itertools.product(*[range(2 ** t[1])
+                                            for t in sorts]):
+                try:
+                    want = py(*vals)
+                except c06.Skip:
+                    continue
+                m = EagerModel(dict((a, mgr.BV(v, t[1])) for a, v, t in
+                                    zip(args, vals, sorts)), env)
+                try:
+                    got = m.get_value(f)
+                    gv = got.constant_value()
+                except Exception as e:
+                    rep.violation('C02/derived/raises/%s' % name.split(
+                        ' [')[0], '%s at %s raised %r' % (name, vals, e))
+                    break
+                rep.count('derived_values_compared')
+                if (isinstance(want, bool) and gv is not want) or \
+                        (not isinstance(want, bool) and gv != want):
+                    rep.violation(
+                        'C02/derived/value/%s' % name.split(' [')[0],
+                        'model value of %s at %s is %s, the constructor '
+                        'denotes %s' % (name, list(vals), gv, want))
+                    break
+            rep.case(key=('derived', name))
 
 
 def after_failure_cases(ck, rep, rng, n):
